@@ -1715,7 +1715,7 @@ func main() {
 	}
 	recW(nil)
 	if !thorough { // a seeded sample of the length-3 programs on top of all shorter ones
-		for k := 0; k < 32; k++ {
+		for k := 0; k < 16; k++ {
 			pr := []hop{}
 			for j := 0; j < 3; j++ {
 				a := wAlpha[g.rng.Intn(len(wAlpha))]
@@ -1854,6 +1854,9 @@ func main() {
 		for _, m := range []int{0, 1, 2, 3} {
 			for _, p := range []int{0, 1, 2} {
 				for ls := 0; ls < 2; ls++ {
+					if !thorough && (m+p+si+ls)%2 == 1 { // quick tier: each request on one of the listeners, alternating
+						continue
+					}
 					sc.Reqs = append(sc.Reqs, request{Listener: ls, M: m, P: p, H: []int{}, B: []int{}})
 				}
 			}
@@ -2009,7 +2012,7 @@ func main() {
 	}
 
 	// --- G3: structured random configurations ---
-	nRand := 120
+	nRand := 100
 	if thorough {
 		nRand = 2500
 	}
